@@ -199,7 +199,7 @@ pub fn n1(f: &[u8], emit: &mut dyn FnMut(&[u8])) -> u64 {
     // every 16-bit window rewritten as a length field: 0, 1, actual-1, actual+1, max (raw and re-framed are the same size)
     for i in hl..f.len().saturating_sub(1) {
         let cur = u16::from_be_bytes([f[i], f[i + 1]]);
-        for v in [0u16, 1, cur.wrapping_sub(1), cur.wrapping_add(1), 0xFFFF, (f.len() - i - 2) as u16, (f.len() - i - 1) as u16] {
+        for v in [0u16, 1, 2, 3, 4, 5, 6, 7, 8, 9, 15, 16, 17, cur.wrapping_sub(1), cur.wrapping_add(1), 0xFFFF, (f.len() - i - 2) as u16, (f.len() - i - 1) as u16] {
             if v != cur {
                 let mut d = f.to_vec();
                 d[i..i + 2].copy_from_slice(&v.to_be_bytes());
